@@ -68,6 +68,7 @@ fn base(config: Config) -> liquid::ParserBuilder {
 
 /// Builds a parser; `Err` carries the error text of `build()`.
 pub fn build(config: Config, policy: Policy, partials: &Partials) -> Result<liquid::Parser, String> {
+    new_parser_epoch();
     let b = base(config);
     let r = match policy {
         Policy::None => b.build(),
@@ -91,6 +92,7 @@ pub fn parser(config: Config) -> liquid::Parser {
 /// jekyll's `sort` replaces the stdlib one when registered; kept separate so the
 /// stdlib `sort` stays reachable in the Full configuration.
 pub fn parser_jekyll_sort() -> liquid::Parser {
+    new_parser_epoch();
     add_full(liquid::ParserBuilder::with_stdlib())
         .filter(liquid_lib::jekyll::Sort)
         .filter(Dump)
@@ -142,8 +144,154 @@ pub fn render_guarded(t: &liquid::Template, globals: &liquid::Object) -> Result<
     guard(|| t.render(globals).map_err(|e| e.to_string()))
 }
 
-/// Parse and render once, totally guarded.
+// ---------------------------------------------------------------- template reuse (re-execution for free)
+//
+// `run_case` keeps, per worker thread, the parsed template of every (parser, text) it has seen and
+// renders *that object* again when the same text comes back with other data.  Every family that
+// varies data under a fixed template text (filter inputs through variables, loop windows through
+// variables, paths with variable indices, comparison operands ...) thereby also re-executes each
+// renderable and filter instance with different operands: anything an instance remembers from
+// its previous execution (a hint, a memoised argument, a buffer) makes the result differ from the
+// reference.  When a violation is reported right after such a render, the annotator re-runs the
+// case on a fresh parse; if that gives another result the violation is qualified
+// `depends-on-previous-execution` and the witness carries the previous data (a two-step history).
+// On a tree where rendering is repeatable (C09) reuse cannot change any result.
+static PARSER_EPOCH: std::sync::atomic::AtomicU64 = std::sync::atomic::AtomicU64::new(0);
+static REUSE_PARSES: std::sync::atomic::AtomicU64 = std::sync::atomic::AtomicU64::new(0);
+static REUSE_RERENDERS: std::sync::atomic::AtomicU64 = std::sync::atomic::AtomicU64::new(0);
+
+struct LastRun {
+    parser: *const liquid::Parser,
+    text: String,
+    prev: Option<liquid::Object>,
+    cur: liquid::Object,
+    outcome: Outcome,
+}
+
+struct Reuse {
+    epoch: u64,
+    map: std::collections::HashMap<(usize, String), (Result<liquid::Template, String>, Option<liquid::Object>)>,
+    last: Option<LastRun>,
+}
+
+thread_local! {
+    static REUSE: std::cell::RefCell<Reuse> = std::cell::RefCell::new(Reuse { epoch: 0, map: Default::default(), last: None });
+}
+
+/// A parser was built: addresses may be reused, so every thread drops its templates lazily.
+fn new_parser_epoch() {
+    PARSER_EPOCH.fetch_add(1, std::sync::atomic::Ordering::SeqCst);
+}
+
+fn reuse_enabled() -> bool {
+    static ON: std::sync::OnceLock<bool> = std::sync::OnceLock::new();
+    *ON.get_or_init(|| std::env::var("LQV_NO_REUSE").is_err())
+}
+
+pub fn install_reuse_annotator() {
+    crate::report::set_violation_annotator(Some(annotate_violation));
+    crate::report::set_extra_provider(Some(|| {
+        use std::sync::atomic::Ordering::Relaxed;
+        vec![(
+            "template_reuse".to_string(),
+            serde_json::json!({
+                "enabled": reuse_enabled(),
+                "templates_parsed": REUSE_PARSES.load(Relaxed),
+                "renders_on_an_already_executed_template_with_other_data": REUSE_RERENDERS.load(Relaxed),
+                "meaning": "run_case renders the per-thread parsed template again when a text recurs; those renders re-execute every renderable/filter instance with new operands (state kept in an instance would change the result)",
+            }),
+        )]
+    }));
+}
+
+fn annotate_violation(witness: &mut serde_json::Value, detail: &mut String) -> Option<String> {
+    if !reuse_enabled() {
+        return None;
+    }
+    let (last, epoch) = REUSE.with(|r| {
+        let mut r = r.borrow_mut();
+        (r.last.take(), r.epoch)
+    });
+    let last = last?;
+    if epoch != PARSER_EPOCH.load(std::sync::atomic::Ordering::SeqCst) {
+        return None; // a parser was built since: the recorded address may be stale
+    }
+    let prev = last.prev.as_ref()?;
+    // the violation must be about this run: the witness names the same template text
+    if witness.get("template").and_then(|t| t.as_str()) != Some(last.text.as_str()) {
+        return None;
+    }
+    // SAFETY: `last.parser` was a live `&Parser` in the `run_case` call that immediately preceded
+    // this violation on this thread; families keep their parser alive while they report.
+    let parser: &liquid::Parser = unsafe { &*last.parser };
+    let fresh = run_case_fresh(parser, &last.text, &last.cur).0;
+    if fresh == last.outcome {
+        return None;
+    }
+    let obj_json = |o: &liquid::Object| serde_json::to_value(o).unwrap_or(serde_json::Value::Null);
+    witness["kind"] = serde_json::json!("reexec");
+    witness["history"] = serde_json::json!([obj_json(prev), obj_json(&last.cur)]);
+    witness["fresh_parse_outcome"] = fresh.to_json();
+    witness["reused_template_outcome"] = last.outcome.to_json();
+    witness["note"] = serde_json::json!("the same parsed template was rendered with history[0] and then with history[1]; a freshly parsed copy gives fresh_parse_outcome for history[1]");
+    detail.push_str(&format!(" [on a freshly parsed copy: {}; the result depends on the template's previous execution]", fresh.short()));
+    Some("depends-on-previous-execution".to_string())
+}
+
+fn run_case_fresh(p: &liquid::Parser, text: &str, globals: &liquid::Object) -> (Outcome, Option<PanicInfo>) {
+    match parse_guarded(p, text) {
+        Err(pi) => (Outcome::Panic(pi.describe()), Some(pi)),
+        Ok(Err(e)) => (Outcome::ParseErr(e), None),
+        Ok(Ok(t)) => match render_guarded(&t, globals) {
+            Err(pi) => (Outcome::Panic(pi.describe()), Some(pi)),
+            Ok(Err(e)) => (Outcome::RenderErr(e), None),
+            Ok(Ok(s)) => (Outcome::Ok(s), None),
+        },
+    }
+}
+
+/// Parse (once per thread and text) and render, totally guarded.
 pub fn run_case(p: &liquid::Parser, text: &str, globals: &liquid::Object) -> (Outcome, Option<PanicInfo>) {
+    if !reuse_enabled() || text.len() > 4096 {
+        return run_case_fresh(p, text, globals);
+    }
+    REUSE.with(|r| {
+        let mut r = r.borrow_mut();
+        let epoch = PARSER_EPOCH.load(std::sync::atomic::Ordering::SeqCst);
+        if r.epoch != epoch || r.map.len() > 50_000 {
+            r.map.clear();
+            r.epoch = epoch;
+        }
+        r.last = None;
+        let key = (p as *const liquid::Parser as usize, text.to_string());
+        if !r.map.contains_key(&key) {
+            let parsed = match parse_guarded(p, text) {
+                Err(pi) => return (Outcome::Panic(pi.describe()), Some(pi)),
+                Ok(x) => x,
+            };
+            REUSE_PARSES.fetch_add(1, std::sync::atomic::Ordering::Relaxed);
+            r.map.insert(key.clone(), (parsed, None));
+        }
+        let entry = r.map.get_mut(&key).expect("just inserted");
+        let (outcome, pi) = match &entry.0 {
+            Err(e) => (Outcome::ParseErr(e.clone()), None),
+            Ok(t) => match render_guarded(t, globals) {
+                Err(pi) => (Outcome::Panic(pi.describe()), Some(pi)),
+                Ok(Err(e)) => (Outcome::RenderErr(e), None),
+                Ok(Ok(s)) => (Outcome::Ok(s), None),
+            },
+        };
+        let prev = entry.1.replace(globals.clone());
+        if prev.as_ref().map(|p| p != globals).unwrap_or(false) {
+            REUSE_RERENDERS.fetch_add(1, std::sync::atomic::Ordering::Relaxed);
+        }
+        r.last = Some(LastRun { parser: p as *const liquid::Parser, text: key.1, prev, cur: globals.clone(), outcome: outcome.clone() });
+        (outcome, pi)
+    })
+}
+
+#[allow(dead_code)]
+fn run_case_unused(p: &liquid::Parser, text: &str, globals: &liquid::Object) -> (Outcome, Option<PanicInfo>) {
     match parse_guarded(p, text) {
         Err(pi) => (Outcome::Panic(pi.describe()), Some(pi)),
         Ok(Err(e)) => (Outcome::ParseErr(e), None),
